@@ -285,6 +285,42 @@ carquet_status_t carquet_read_data_page_v1(
         num_values = (int32_t)max_values;
     }
 
+    /* A column without levels stores one value per announced entry. For PLAIN
+     * data the body must be long enough for them; check that before any work
+     * that grows with the announced count (the count comes from the file). */
+    if (reader->max_def_level == 0 && reader->max_rep_level == 0 &&
+        header->encoding == CARQUET_ENCODING_PLAIN && num_values > 0) {
+        size_t need;
+        switch (reader->type) {
+            case CARQUET_PHYSICAL_BOOLEAN:
+                need = ((size_t)num_values + 7) / 8;
+                break;
+            case CARQUET_PHYSICAL_INT32:
+            case CARQUET_PHYSICAL_FLOAT:
+            case CARQUET_PHYSICAL_BYTE_ARRAY:  /* length prefixes alone */
+                need = (size_t)num_values * 4;
+                break;
+            case CARQUET_PHYSICAL_INT64:
+            case CARQUET_PHYSICAL_DOUBLE:
+                need = (size_t)num_values * 8;
+                break;
+            case CARQUET_PHYSICAL_INT96:
+                need = (size_t)num_values * 12;
+                break;
+            case CARQUET_PHYSICAL_FIXED_LEN_BYTE_ARRAY:
+                need = reader->type_length > 0
+                           ? (size_t)num_values * (size_t)reader->type_length : 0;
+                break;
+            default:
+                need = 0;
+        }
+        if (need > page_size) {
+            CARQUET_SET_ERROR(error, CARQUET_ERROR_DECODE,
+                "Page body too small for its value count");
+            return CARQUET_ERROR_DECODE;
+        }
+    }
+
     /* Levels are decoded as the length-prefixed RLE/bit-packed hybrid. The
      * deprecated BIT_PACKED level encoding (fixed width, no length prefix) is
      * not implemented: refuse it instead of reading its bytes as RLE. */
